@@ -15,12 +15,51 @@ P = emit.P
 KINDS = [('string', 'ObjStringIter'), ('tuple', 'ObjTupleIter'), ('vec', 'ObjVecIter'), ('range', 'ObjRangeIter')]
 
 
+def field_refs(f, field):
+    """locals that hold a reference to <something>.field (taken with & / &mut, then copied or moved: e.g. handed to a helper that
+    was spliced in and works on `current: &mut usize`)"""
+    refs = set()
+    for b in f.blocks:
+        for s in b['s']:
+            d = s.get('d') or {}
+            rr = s.get('r', {})
+            if not d.get('p') and rr.get('rv') == 'ref':
+                ps = rr['p'].get('p') or []
+                if ps and isinstance(ps[-1], dict) and ps[-1].get('n') == field:
+                    refs.add(d['l'])
+    changed = True
+    while changed:
+        changed = False
+        for b in f.blocks:
+            for s in b['s']:
+                d = s.get('d') or {}
+                rr = s.get('r', {})
+                if d.get('p') or d.get('l') in refs:
+                    continue
+                src = None
+                if rr.get('rv') == 'use':
+                    src = op_place(rr['o'])
+                elif rr.get('rv') == 'ref' and (rr['p'].get('p') or []) == ['*']:
+                    src = {'l': rr['p']['l']}          # reborrow
+                if src is not None and not src.get('p') and src['l'] in refs:
+                    refs.add(d['l'])
+                    changed = True
+    return refs
+
+
+def is_field_place(pl, field, refs):
+    ps = (pl or {}).get('p') or []
+    if ps and isinstance(ps[-1], dict) and ps[-1].get('n') == field:
+        return True
+    return bool(pl) and ps == ['*'] and pl['l'] in refs
+
+
 def stores_to(f, field):
     out = []
+    refs = field_refs(f, field)
     for bi in f.normal_blocks():
         for i, s in enumerate(f.blocks[bi]['s']):
-            ps = (s.get('d') or {}).get('p') or []
-            if ps and isinstance(ps[-1], dict) and ps[-1].get('n') == field:
+            if is_field_place(s.get('d'), field, refs):
                 out.append((bi, i))
     return out
 
@@ -28,12 +67,12 @@ def stores_to(f, field):
 def reads_of(f, field, pred=lambda rr: True):
     """statements whose rvalue reads <something>.field directly (use / cast of the field place)"""
     out = []
+    refs = field_refs(f, field)
     for bi in f.normal_blocks():
         for i, s in enumerate(f.blocks[bi]['s']):
             rr = s.get('r', {})
             pl = op_place(rr.get('o', {}) or {}) if rr.get('rv') in ('use', 'cast') else None
-            ps = (pl or {}).get('p') or []
-            if ps and isinstance(ps[-1], dict) and ps[-1].get('n') == field and pred(rr) and not (s.get('d') or {}).get('p'):
+            if is_field_place(pl, field, refs) and pred(rr) and not (s.get('d') or {}).get('p'):
                 out.append((bi, i, s['d']['l']))
     return out
 
@@ -100,6 +139,17 @@ def q1(rep, w):
         r.check(ok, '%s::new starts the cursor at the beginning' % ty, 'a new %s does not start at the first element' % ty, n.loc())
 
 
+def cursor_next(w, ty, prop='C18'):
+    """the `next` of a built-in cursor type, whether it is an inherent method or the type's implementation of a (new) trait"""
+    f = w.fns.get(OBJ + ty + '::next')
+    if f is not None:
+        return f
+    for g in w.yarel.fns.values():
+        if g.raw.get('name') == 'next' and g.raw.get('impl_self') is not None and g.crate.ty(g.raw['impl_self']).get('n') == 'yarel::object::' + ty:
+            return g
+    raise Broken(prop, 'anchor', 'no `next` method found for %s' % ty)
+
+
 def q2(rep, w):
     r = rep.rule('Q2', 'the end-of-iteration sentinel: every native next() returns a StopIter instance when exhausted and the for loop tests that class', floor=6)
     GET = 'yarel::class_store::CoreClassStore::stop_iter_class'
@@ -112,9 +162,10 @@ def q2(rep, w):
             'the loop-exit test no longer compares against the StopIter core class', js.loc())
     for kind, ty in KINDS:
         f = w.require_fn(CORE + kind + '_iter_next', 'C18')
-        bodies = [f] + [g for g in w.fns.values() if g.kind == 'Closure' and g.parent == f.path]
+        made = {s_['r']['closure'] for b in f.blocks for s_ in b['s'] if s_.get('r', {}).get('closure')}      # also those of a helper that was spliced in
+        bodies = [f] + [g for g in w.fns.values() if g.kind == 'Closure' and (g.parent == f.path or g.path in made)]
         stop = any(callee_name(t) == VM + 'new_root_obj_stop_iter' for g in bodies for _, t in g.calls())
-        nxt = any(callee_name(t) == OBJ + ty + '::next' for _, t in f.calls())
+        nxt = any(callee_name(t) == cursor_next(w, ty).path for _, t in f.calls())
         r.check(stop and nxt, '%s_iter_next: cursor.next() or a StopIter instance' % kind, '%s_iter_next no longer ends with the StopIter sentinel (the loop never terminates) or '
                 'bypasses the cursor' % kind, f.loc())
 
@@ -122,7 +173,7 @@ def q2(rep, w):
 def q3(rep, w):
     r = rep.rule('Q3', 'each cursor yields the element at the cursor, then advances by exactly one', floor=4)
     for ty in ('ObjVecIter', 'ObjTupleIter'):
-        f = w.require_fn(OBJ + ty + '::next', 'C18')
+        f = cursor_next(w, ty)
         org = origins(f)
         idx = [(bi, t) for bi, t in f.calls() if (callee_name(t) or '').endswith('::index') and 'elements' in operand_fields(f, org, t['args'][0])]
         incs = []
@@ -131,12 +182,20 @@ def q3(rep, w):
                 rr = s.get('r', {})
                 if rr.get('rv') == 'bin' and rr['op'].startswith('Add') and (op_const(rr['b']) or {}).get('v') == 1 and 'current' in operand_fields(f, org, rr['a']):
                     incs.append(bi)
-        ok = len(idx) == 1 and len(incs) == 1
+        # ... or the built-in indexing of a slice (`elements[i]` on a `&[Value]`): a place with an index projection
+        builtin = []
+        for bi in f.normal_blocks():
+            for s_ in f.blocks[bi]['s']:
+                rr = s_.get('r', {})
+                pl = op_place(rr.get('o', {}) or {}) if rr.get('rv') == 'use' else None
+                ix = [e for e in (pl or {}).get('p', []) if isinstance(e, dict) and 'i' in e]
+                if ix and 'elements' in operand_fields(f, org, {'c': {'l': pl['l']}}):
+                    builtin.append(ix[0]['i'])
+        ok = len(idx) + len(builtin) == 1 and len(incs) == 1
         st = stores_to(f, 'current')
         if ok and len(st) == 1:
-            ib, it = idx[0]
             rd = {l: (b_, i_) for (b_, i_, l) in reads_of(f, 'current', lambda rr: rr.get('rv') == 'use')}
-            ipl = op_place(it['args'][1])
+            ipl = op_place(idx[0][1]['args'][1]) if idx else {'l': builtin[0]}
             src = copy_source(f, ipl['l']) if ipl and not ipl.get('p') else None
             # the index is the cursor value read before the cursor is advanced (no arithmetic on it)
             ok = src in rd and before(f, rd[src], st[0])
@@ -144,7 +203,7 @@ def q3(rep, w):
             ok = False
         r.check(ok, '%s::next returns elements[current], then current += 1' % ty, '%s::next no longer yields the element at the cursor before advancing by one '
                 '(skipped or repeated elements)' % ty, f.loc())
-    f = w.require_fn(OBJ + 'ObjRangeIter::next', 'C18')
+    f = cursor_next(w, 'ObjRangeIter')
     org = origins(f)
     add = [s for b in f.blocks for s in b['s'] if s.get('r', {}).get('rv') == 'bin' and s['r']['op'].startswith('Add')]
     ok = len(add) == 1 and {'current'} <= operand_fields(f, org, add[0]['r']['a']) and 'step' in operand_fields(f, org, add[0]['r']['b'])
@@ -160,7 +219,7 @@ def q3(rep, w):
     steps = sorted({(op_const(s['r']['o']) or {}).get('v') for b in n.blocks for s in b['s'] if s.get('r', {}).get('rv') == 'use' and
                     n.crate.tstr(n.local_ty(s['d']['l'])) == 'isize' and op_const(s['r']['o']) is not None and not s['d'].get('p')})
     r.check(steps == [-1, 1], 'ObjRangeIter::new: step is +1 or -1', 'range step constants are %s' % steps, n.loc())
-    s_ = w.require_fn(OBJ + 'ObjStringIter::next', 'C18')
+    s_ = cursor_next(w, 'ObjStringIter')
     org = origins(s_)
     inc1 = any(x.get('r', {}).get('rv') == 'bin' and x['r']['op'].startswith('Add') and (op_const(x['r']['b']) or {}).get('v') == 1 and 'pos' in operand_fields(s_, org, x['r']['a'])
                for b in s_.blocks for x in b['s'])
